@@ -44,6 +44,9 @@ const (
 	oStrLong
 	oClose
 	oExtract
+	// oRecycle: the ReadBuf's current bank goes through the pool and comes back: extract it (the ReadBuf
+	// takes a fresh bank), close it, extract again choosing the pooled bank, close the intermediate one.
+	oRecycle
 )
 
 type op struct {
@@ -70,6 +73,8 @@ func (o op) String() string {
 		return "toString(300B)@" + b
 	case oClose:
 		return "close(" + b + ")"
+	case oRecycle:
+		return "recycle(rb's bank: extract, close, re-acquire from the pool)"
 	}
 	return fmt.Sprintf("extract(pool answer %d)", o.arg)
 }
@@ -165,6 +170,7 @@ func (w *world) enabled() []op {
 		for k := 0; k <= len(w.pool) && k <= 2; k++ {
 			ops = append(ops, op{kind: oExtract, arg: k})
 		}
+		ops = append(ops, op{kind: oRecycle})
 	}
 	return ops
 }
@@ -303,6 +309,19 @@ func (w *world) apply(o op, poolAsked *int) *e1fail {
 			}
 		}
 		w.pool = append(w.pool, b)
+	case oRecycle:
+		n := len(w.extracted)
+		if f := w.apply(op{kind: oExtract, arg: 0}, poolAsked); f != nil {
+			return f
+		}
+		if f := w.apply(op{kind: oClose, bank: n + 1}, poolAsked); f != nil {
+			return f
+		}
+		// the bank just closed is the most recently pooled one: answer 1
+		if f := w.apply(op{kind: oExtract, arg: 1}, poolAsked); f != nil {
+			return f
+		}
+		return w.apply(op{kind: oClose, bank: n + 1}, poolAsked)
 	case oExtract:
 		// the pool answer for the Get inside ExtractResourceBank is scripted by the operation
 		asked := 0
@@ -491,7 +510,7 @@ func runE1(c *fw.Ctx, first op, depth, maxBanks int) {
 }
 
 func opKindName(k int) string {
-	return [...]string{"alloc-int", "alloc-node", "alloc17", "string-short", "string-long", "close", "extract"}[k]
+	return [...]string{"alloc-int", "alloc-node", "alloc17", "string-short", "string-long", "close", "extract", "recycle"}[k]
 }
 
 func clip(s string) string {
@@ -608,6 +627,21 @@ func runE2(c *fw.Ctx, codec string, comp []int, mode int, poolBound int) {
 			})
 		}()
 		check("by the end of the read")
+		// other bank users after the read: a second ReadFile whose banks are closed at once (pool answers explored)
+		if pan == nil && err == nil {
+			func() {
+				defer func() {
+					if r := recover(); r != nil {
+						pan, site = r, fw.PanicSite(3)
+					}
+				}()
+				avro.ReadFile(&filedrv.Reader{Data: f.Data, Mode: mode}, Rec{}, func(val unsafe.Pointer, rb *avro.ResourceBank) error {
+					rb.Close()
+					return nil
+				})
+			}()
+			check("after a later ReadFile of another reader")
+		}
 		execs++
 		points += int64(len(ch.Taken))
 		obs[fmt.Sprint(ch.Taken)] = true
@@ -683,7 +717,7 @@ func init() {
 			if tier == "thorough" {
 				depth, banks, pb = 7, 3, 3
 			}
-			return fmt.Sprintf("built with the sync→zzvsync overlay so that sync.Pool recycling is an explored choice. (E1) explicit-state BFS over sequences (depth %d) of real ResourceBank/ReadBuf operations {alloc(int64), alloc(struct with pointer and string), 17×alloc (arena growth), ToString/NextAsString of 2 and 300 bytes (string store regrowth), Close(bank i), ExtractResourceBank with Pool.Get answer ∈ {new, each of the 2 most recently pooled banks}} over the ReadBuf's bank and <=%d extracted banks; successor = replay on a fresh world + one operation; canonical state = per physical bank (role, fill levels, high-water classes) and pool order; shadow-heap model: after EVERY step a new allocation must be all-zero and disjoint (address ranges) from every live allocation and string of every open bank, and every live allocation and string must still hold its pattern. (E2) ReadFile over 4-record files (strings, bytes, slices, maps, pointers, nested pointer; an all-empty record after full ones) × 3 codecs × 4 block partitions × 2 reader modes, with the callback's retention policy (keep / close own bank / close the bank of any earlier open record) explored exhaustively and Pool.Get answers with <=%d deviations: every retained shallow copy whose bank is open must equal the deep copy taken at delivery, at every later callback and at the end; distinct_nontrivial = distinct histories / choice vectors checked", depth, banks, pb)
+			return fmt.Sprintf("built with the sync→zzvsync overlay so that sync.Pool recycling is an explored choice. (E1) explicit-state BFS over sequences (depth %d) of real ResourceBank/ReadBuf operations {alloc(int64), alloc(struct with pointer and string), 17×alloc (arena growth), ToString/NextAsString of 2 and 300 bytes (string store regrowth), Close(bank i), ExtractResourceBank with Pool.Get answer ∈ {new, each of the 2 most recently pooled banks}, recycle (the ReadBuf's bank goes through Close and the pool and comes back)} over the ReadBuf's bank and <=%d extracted banks; successor = replay on a fresh world + one operation; canonical state = per physical bank (role, fill levels, high-water classes) and pool order; shadow-heap model: after EVERY step a new allocation must be all-zero and disjoint (address ranges) from every live allocation and string of every open bank, and every live allocation and string must still hold its pattern. (E2) ReadFile over 4-record files (strings, bytes, slices, maps, pointers, nested pointer; an all-empty record after full ones) × 3 codecs × 4 block partitions × 2 reader modes, with the callback's retention policy (keep / close own bank / close the bank of any earlier open record) explored exhaustively and Pool.Get answers with <=%d deviations: every retained shallow copy whose bank is open must equal the deep copy taken at delivery, at every later callback, at the end, and again after a second ReadFile (whose banks are closed at once) has run; distinct_nontrivial = distinct histories / choice vectors checked", depth, banks, pb)
 		},
 		Assumptions: []string{
 			"double Close of one bank and use after Close are API misuse and excluded from the alphabet",
